@@ -106,6 +106,15 @@ def run(ctx):
     for f in fails:
         ctx.failing_input(f[1], f[2], f[3], f[4])
     ctx.log("search: %d failing inputs" % len(fails))
+    ctx.notes["hygiene_oracles"] = (
+        "harness/c13/hygiene.go: reader op sequences (written streams with look-aheads mixed in, arbitrary zero-heavy data) also on a "
+        "bytes.Reader over a guarded sub-slice, on ReadSeekers handing out one byte per Read / data together with io.EOF "
+        "(reader-dependent), on a ReadSeeker NOT starting at offset 0 (depends-on-reader-offset: finding C13-F3, fixed 823b82c), "
+        "with a second reader object stepped in between (depends-on-other-objects); ReadBytes / ReadRemainingBytes results re-read "
+        "after later reads and after the caller overwrote its buffer; EBSPWriter / Writer / ByteWriter into a plain io.Writer and "
+        "interleaved with a second writer object; NewFixedSliceWriterFromSlice(buf[:n]) with spare capacity vs NewFixedSliceWriter(n) "
+        "op by op incl. overflowing ops (writes-beyond-len, depends-on-capacity), WriteBytes / WriteSlice arguments re-used by the "
+        "caller. Not demanded: NewFixedSliceWriterFromSlice writes INTO the slice it is given (documented)")
     if mism and not fails:
         by_id = {}
         for l in lines:
